@@ -8,7 +8,9 @@ typedef struct {
 	int thread;           /* thread that reached the point (-1: before the first thread started) */
 } sched_point_t;
 /* run n thread bodies under the scheduler; choices beyond the prefix are 0 (continue / lowest id).
- * returns 0, -1 if a prefix choice was out of range (divergence), -2 if more than cap points occurred */
+ * returns 0, -1 if a prefix choice was out of range (divergence), -2 if more than cap points occurred, -3 if the execution made no
+ * progress for sched_horizon_s seconds (a thread blocked outside the scheduler; the threads are then still alive) */
+extern int sched_horizon_s;
 int sched_run(int n, sched_body_t *bodies, void **args, const int *prefix, int prefix_len, sched_point_t *points, int *choices, int cap, int *npoints);
 void sched_point(void);   /* call at every scheduling point (no-op outside scheduled threads) */
 int sched_self(void);
